@@ -43,6 +43,21 @@ SPEC = {
             'as C11; split_by_capture only on patterns whose captures are sequential siblings; reconstruction laws', 300),
     'C14': ('rv.api', 'file sources and context windows refer to the text, not the path',
             'every is_path method on text vs temp file (audit hook on open), windows over {0,1,2,5,len,len+3}^2, invalid sizes', 100),
+    'C15': ('rv.meta', 'Integer patterns match exactly the canonical numerals in range',
+            'ranges from all digit-length combinations 1..6 x boundary shapes x 5 sign variants; per range boundary/length-shifted/'
+            'leading-zero candidates alone (text start and end) and embedded in 22 contexts; every digit run judged MUST / MUST-NOT / '
+            'unspecified by a numeric model; extensible forms behind 4 prefixes; distinct = distinct (variant, range) cases', 100),
+    'C16': ('rv.meta', 'Decimal patterns constrain integer part and fraction length exactly',
+            'ranges x fraction bounds x 5 variants; tokens sign+int+.+fraction with boundary/leading-zero/missing int parts and fraction '
+            'lengths min-1..max+1, exact and embedded', 100),
+    'C17': ('rv.meta', 'Numeral and Word patterns enforce alphabet, length and affix exactly',
+            'all bases 2..16 x 12 bound pairs; Word bounds x is_global; affix lists incl. metacharacters (structural reference)', 100),
+    'C18': ('rv.meta', 'IPv4 and IPv6 accept exactly the standard textual addresses',
+            'IPv4: every octet value 0..300 (+ zero-padded) in every position; IPv6: every shape of 0..9 groups x every :: position x '
+            'group-length classes (enumerated completely) + random hex content, against the ipaddress module; glue law on embedded matches', 50),
+    'C19': ('rv.meta', 'Date patterns match exactly the selected numeric formats',
+            'each of the 48 formats alone, all together, random subsets; every part value 00..99/0..9/bad lengths, both and mixed '
+            'separators, both is_extensible, against a direct parser of the format strings; invalid formats', 30),
 }
 
 TIERS = {
